@@ -5,6 +5,7 @@ from rules.v2common import *
 from spec import classify
 
 LEVEL = 'other'
+FIXTURES = ['F3']
 
 
 def run(ctx, R):
